@@ -14,6 +14,8 @@
   C19.SYNC  _synchronize_and_fetch_fallback: everything read from the fallback stream is kept in
             _latest_fallback_sample; `primary older than fallback -> None` is tested on every call;
             the catch-up loop runs while the primary is newer and advances only the fallback.
+  C19.ESYNC a sample read straight from the fallback stream is returned to the round only on paths that consult
+            the synchronisation state or compare a timestamp (the primary-error path does not: finding F12).
   C19.BUF   the fallback engine's receiver is created with the default capacity (like every other
             formula input).
   C19.TICK  once the fallback runs, every tick of fetch_next_with_fallback reads it.
@@ -625,6 +627,191 @@ def check_sync(run: Run, prog: Program, rule: str = "C19.SYNC") -> None:
               "the first fallback sample is not fetched lazily", node=fn.node, file=fn.file, path=cfg.describe_path(wit))
 
 
+EVAL = "timeseries.formula_engine._formula_evaluator:FormulaEvaluator"
+
+
+def evaluator_resyncs(run: Run, prog: Program) -> tuple[bool, str]:
+    """Does the consumer re-align its inputs whenever they are out of step?  Decided on FormulaEvaluator.apply()
+    (private helpers read in, the synchronisation routine kept as a call), in the steady state (`_first_run` false),
+    for rounds whose fetched samples carry 2 and 3 distinct timestamps: no path reaches a `return` without passing
+    an awaited call of the synchronisation routine; with one distinct timestamp a return is reachable without it.
+    The "distinct timestamps" test is recognised as len(<set of .timestamp>) against a constant, any/all over a
+    (in)equality of .timestamp values, or min(..) against max(..) of .timestamp values."""
+    from ._c06_util import cmp_eval, first_run_sync_name, tri
+
+    raw = prog.func(f"{EVAL}.apply")
+    sync = first_run_sync_name(prog)
+    run.analysed(raw.qual)
+    fn = inline_all(prog, raw, stop={sync})
+    fl = Flow(prog, fn)
+    cfg = fl.cfg
+    sync_nodes = [nid for nid, c in fl.calls(lambda c: isinstance(c.func, ast.Attribute) and c.func.attr == sync and u(c.func.value) == "self")
+                  if isinstance(fl._parent.get(id(c)), ast.Await)]
+    if not sync_nodes:
+        raise AnalysisError(f"{raw.qual}: no awaited call of the synchronisation routine `{sync}`")
+    rets = fl.returns()
+    if not rets:
+        raise AnalysisError(f"{raw.qual}: no return")
+
+    def ts_elems(e: ast.AST) -> bool:
+        """a comprehension / generator whose element is `<x>.timestamp`"""
+        return isinstance(e, (ast.SetComp, ast.ListComp, ast.GeneratorExp)) and isinstance(e.elt, ast.Attribute) and e.elt.attr == "timestamp"
+
+    def ts_collection(f: Flow, e: ast.AST, nid: int, want_set: bool) -> bool:
+        if ts_elems(e) and (isinstance(e, ast.SetComp) or not want_set):
+            return True
+        org = f.origin(e, nid)
+        for q in org:
+            x = q.node if q.kind == "expr" else None
+            if isinstance(x, ast.SetComp) and ts_elems(x):
+                continue
+            if isinstance(x, ast.Call) and u(x.func) in ("set", "frozenset") and len(x.args) == 1 and (
+                    ts_elems(x.args[0]) or (q.nid is not None and ts_collection(q.flow, x.args[0], q.nid, False))):
+                continue
+            if not want_set and x is not None and ts_elems(x):
+                continue
+            return False
+        return bool(org)
+
+    def scene(distinct: int, f: Flow, depth: int = 0) -> Any:
+        def atom(e: ast.AST, nid: int) -> bool | None:
+            if isinstance(e, (ast.Name, ast.Attribute)):
+                o = f.origin(e, nid, through_helpers=False)
+                if o and all(x.kind == "expr" and u(x.node) == "self._first_run" for x in o):
+                    return False
+            if isinstance(e, ast.Compare) and len(e.ops) == 1:
+                a, b, op = e.left, e.comparators[0], e.ops[0]
+                for x, y, flip in ((a, b, False), (b, a, True)):
+                    if isinstance(x, ast.Call) and u(x.func) == "len" and len(x.args) == 1 and isinstance(y, ast.Constant) \
+                            and isinstance(y.value, int) and not isinstance(y.value, bool) and ts_collection(f, x.args[0], nid, True):
+                        return cmp_eval(op, y.value, distinct) if flip else cmp_eval(op, distinct, y.value)
+                    if isinstance(x, ast.Call) and isinstance(y, ast.Call) and u(x.func) == "min" and u(y.func) == "max" \
+                            and len(x.args) == 1 and len(y.args) == 1 and ts_collection(f, x.args[0], nid, False) \
+                            and ts_collection(f, y.args[0], nid, False):
+                        lo, hi = (0, 0) if distinct == 1 else (0, 1)
+                        return cmp_eval(op, hi, lo) if flip else cmp_eval(op, lo, hi)
+            if isinstance(e, ast.Call) and u(e.func) in ("any", "all") and len(e.args) == 1 and isinstance(e.args[0], (ast.GeneratorExp, ast.ListComp)):
+                c = e.args[0].elt
+                if isinstance(c, ast.Compare) and len(c.ops) == 1 and isinstance(c.ops[0], (ast.Eq, ast.NotEq)) and all(
+                        (isinstance(z, ast.Attribute) and z.attr == "timestamp") or isinstance(z, ast.Name) for z in (c.left, c.comparators[0])) and any(
+                        isinstance(z, ast.Attribute) and z.attr == "timestamp" for z in (c.left, c.comparators[0])) and not e.args[0].generators[0].ifs:
+                    differ_somewhere = distinct > 1
+                    if isinstance(c.ops[0], ast.NotEq):
+                        return differ_somewhere if u(e.func) == "any" else None
+                    return (not differ_somewhere) if u(e.func) == "all" else None
+            if isinstance(e, ast.Call) and depth < 3:
+                # a private predicate helper: decided when all of its returns agree
+                ch = f.child(e, nid)
+                if ch is not None and not ch.fn.is_async:
+                    inner = lifted(ch, scene(distinct, ch, depth + 1))
+                    verdicts = set()
+                    for r in ch.returns():
+                        v = ch.cfg.nodes[r].ast.value  # type: ignore[union-attr]
+                        verdicts.add(None if v is None else tri(v, lambda x, r=r: inner(x, r)))
+                    if len(verdicts) == 1:
+                        return verdicts.pop()
+            return None
+        return atom
+
+    normal = {d: pruned(cfg, lifted(fl, scene(d, fl))) for d in (1, 2, 3)}
+    for d in (2, 3):
+        w = cfg.path(cfg.entry, rets, avoid=sync_nodes, edge_ok=normal[d])
+        if w is not None:
+            return False, (f"in the steady state a round whose samples carry {d} different timestamps can be evaluated without "
+                           f"the synchronisation routine `{sync}` being awaited: " + " -> ".join(cfg.describe_path(w)[-6:]))
+    if cfg.path(cfg.entry, rets, avoid=sync_nodes, edge_ok=normal[1]) is None:
+        return False, "no steady-state path evaluates an aligned round without re-synchronising (the recognised test was not found)"
+    return True, f"{raw.qual}: a round whose samples carry different timestamps always awaits `{sync}` before it is evaluated"
+
+
+def check_esync(run: Run, prog: Program) -> None:
+    """C19.ESYNC ("... taken from the sum of its fallback components *for the same timestamp*"): a sample of the
+    fallback stream is handed to the round only after its timestamp was related to a reference of that round.
+    The synchronisation routine does that against the primary sample (C19.SYNC); a sample that comes straight
+    from `<fallback>.receive()` and is returned without any read of the fetcher's synchronisation state (the
+    attribute the synchronisation keeps its last fallback sample in) and without any timestamp comparison on the
+    way is *unsynchronised*: whichever sample the fallback engine happens to deliver first is combined with the
+    other terms' samples of another timestamp, and -- one receive per round from then on -- stays shifted for ever.
+    The finding is reported per path condition (primary failed / primary received), not per spelling."""
+    raw = prog.func(f"{MF}.fetch_next_with_fallback")
+    run.analysed(raw.qual)
+    sname, vname = fallback_sync_name(prog), validity_name(prog)
+    fn = inline_all(prog, raw, stop={sname} | ({vname} if vname else set()))
+    fl = Flow(prog, fn)
+    cfg = fl.cfg
+    if len(fn.params) < 2:
+        raise AnalysisError(f"{raw.qual}: expected (self, fallback fetcher)")
+    fb = fn.params[1]
+    # the synchronisation state, by role: what the synchronisation routine stores fallback samples in
+    sfn = prog.func(f"{MF}.{sname}")
+    state = {t.attr for st in ast.walk(sfn.node) if isinstance(st, (ast.Assign, ast.AnnAssign))
+             for t in (st.targets if isinstance(st, ast.Assign) else [st.target])
+             if isinstance(t, ast.Attribute) and u(t.value) == "self" and st.value is not None
+             and any(isinstance(c, ast.Call) and isinstance(c.func, ast.Attribute) and c.func.attr in ("receive", "consume")
+                     for c in ast.walk(st.value))}
+    if not state:
+        raise AnalysisError(f"{sfn.qual}: the attribute that keeps the last fallback sample was not found")
+
+    def is_fb(e: ast.AST, nid: int | None) -> bool:
+        o = fl.origin(e, nid)
+        return bool(o) and all(q.kind == "param" and q.name == fb for q in o)
+
+    raw_reads = [(nid, c) for nid, c in fl.calls(lambda c: isinstance(c.func, ast.Attribute) and c.func.attr in ("receive", "consume"))
+                 if is_fb(c.func.value, nid)]  # type: ignore[union-attr]
+    evidence = set()
+    for n in cfg.nodes:
+        if n.ast is None or n.id not in fl.live:
+            continue
+        for part in own_parts(n):
+            for x in ast.walk(part):
+                if isinstance(x, ast.Attribute) and x.attr in state and u(x.value) == "self":
+                    evidence.add(n.id)
+                elif isinstance(x, ast.Compare) and any(isinstance(y, ast.Attribute) and y.attr == "timestamp" for y in ast.walk(x)):
+                    evidence.add(n.id)
+                elif isinstance(x, ast.Call) and isinstance(x.func, ast.Attribute) and x.func.attr == sname and u(x.func.value) == "self":
+                    evidence.add(n.id)
+    normal = lambda a, b, lab: not lab.startswith("exc:")  # noqa: E731
+    n_inst = 0
+    resync: tuple[bool, str] | None = None
+    for r in fl.returns():
+        val = cfg.nodes[r].ast.value if isinstance(cfg.nodes[r].ast, ast.Return) else None  # type: ignore[union-attr]
+        if val is None:
+            continue
+        for q in fl.origin(val, r):
+            if q.kind != "expr":
+                continue
+            hit = [(nid, c) for nid, c in raw_reads if unawait(q.node) is c]
+            if not hit:
+                continue
+            d = hit[0][0]
+            n_inst += 1
+            failed = cfg.path(cfg.entry, [d], edge_ok=normal) is None
+            cond = "primary failed" if failed else "primary received"
+            unsync = cfg.path(cfg.entry, [d], avoid=evidence - {d}) is not None and (
+                d == r or cfg.path(d, [r], avoid=evidence - {d, r}, include_src=False) is not None) \
+                and d not in evidence and r not in evidence
+            if unsync:
+                if resync is None:
+                    resync = evaluator_resyncs(run, prog)
+                if resync[0]:
+                    run.ok("C19.ESYNC", f"{MF}: the fallback's next sample is returned unsynchronised ({cond}), and the consumer "
+                           f"re-aligns: {resync[1]}")
+                    continue
+                run.violation("C19.ESYNC", MF, f"the fallback's next sample is returned unsynchronised ({cond})",
+                              f"`{u(cfg.nodes[r].ast)}` hands the round whatever sample the fallback stream delivers next: on this path "
+                              f"({cond}) nothing reads the synchronisation state ({', '.join('self.' + a for a in sorted(state))}) or "
+                              "compares a timestamp, so when the fallback has not been synchronised before (the primary stream "
+                              "fails while the fallback engine is still starting, or it failed from the start) the term's value "
+                              "belongs to another timestamp than the other terms' values of the round -- and stays shifted by "
+                              "the same number of steps for ever (one receive per round); and the consumer does not make up for "
+                              f"it: {resync[1]}",
+                              node=cfg.nodes[r].ast, file=raw.file)
+            else:
+                run.ok("C19.ESYNC", f"{MF}: a raw fallback sample is returned only after the synchronisation state was consulted ({cond})")
+    run.check(True, "C19.ESYNC", MF, "fallback samples reach the round through the synchronisation or a state check",
+              "", node=raw.node, file=raw.file, instance=f"{MF}: {len(raw_reads)} direct fallback read(s), {n_inst} returned as read")
+
+
 def check_keep(run: Run, prog: Program) -> None:
     """C19.KEEP ("... and returns to the primary when it recovers"): which stream is the primary and which fetcher
     the fallback is decided when the MetricFetcher is built; no later code path -- in particular no error handler --
@@ -796,6 +983,7 @@ def run_rules(run: Run, prog: Program) -> None:
     check_err(run, prog)
     check_lazy(run, prog)
     check_sync(run, prog)
+    check_esync(run, prog)
     check_keep(run, prog)
     check_buf(run, prog)
 
@@ -809,6 +997,8 @@ def check(run: Run, prog: Program, tier: str) -> str:
     run.rule("C19.ERR", "every receive() is guarded by a catchable ReceiverError handler (two documented terminal sites)")
     run.rule("C19.LAZY", "fallback started only when not running and the primary is invalid (shared predicate) or failed")
     run.rule("C19.SYNC", "fallback samples are never lost; older-test on every call; catch-up loop only advances the fallback")
+    run.rule("C19.ESYNC", "a fallback sample is handed to a round only after its timestamp was related to the round (synchronisation "
+             "routine, or a read of the synchronisation state / a timestamp comparison on the path)")
     run.rule("C19.BUF", "fallback receiver has the default capacity")
     run_rules(run, prog)
     run.floor("C19.SEL", 10)
